@@ -73,7 +73,7 @@ CCAP = 160         # maximal number of tabulated rule calls of a completion
 
 
 def budget(tier):
-    return 2400 if tier == "quick" else 18000
+    return 2800 if tier == "quick" else 21000
 
 
 # ------------------------------------------------------------------------------------------------
@@ -157,14 +157,134 @@ def gen_pair_retry(rng):
     return out
 
 
+# ---- a small exact model of Equal Shares (approval ballots, Cost_Sat / Cardinality_Sat, lexicographic ties), used
+# ---- ONLY to select inputs (never for a verdict): elections on which the rule is NOT monotone in the budget
+def _model_mes(costs, ballots, B, sat, n=None):
+    """exact Equal Shares for approval ballots, Cost_Sat ('cost') / Cardinality_Sat ('card'), lexicographic ties"""
+    n = len(ballots) if n is None else n
+    m = len(costs)
+    bud = [Fraction(B) / n for _ in ballots]
+    u = lambda p: (costs[p] if sat == "cost" else Fraction(1))
+    supp = {p: [i for i, b in enumerate(ballots) if p in b] for p in range(m)}
+    W = [p for p in range(m) if costs[p] == 0 and supp[p] and sat == "card"]
+    rem = [p for p in range(m) if costs[p] > 0 and supp[p]]
+    while True:
+        best = None
+        for p in rem:
+            S = supp[p]
+            if sum(bud[i] for i in S) < costs[p]:
+                continue
+            # least rho with sum min(bud_i, rho*u) = cost ; u identical for all supporters
+            srt = sorted(S, key=lambda i: bud[i])
+            paid = Fraction(0); k = len(srt); rho = None
+            for j, i in enumerate(srt):
+                r = (costs[p] - paid) / ((k - j) * u(p))
+                if r * u(p) <= bud[i]:
+                    rho = r; break
+                paid += bud[i]
+            if rho is None:
+                continue
+            if best is None or rho < best[0]:
+                best = (rho, p)
+        if best is None:
+            return sorted(W)
+        rho, p = best
+        for i in supp[p]:
+            bud[i] -= min(bud[i], rho * u(p))
+        W.append(p); rem.remove(p)
+def _model_trace(costs, ballots, B, sat, inc, cap=40):
+    """outcomes of the tries of the iterated rule until the first infeasible / exhaustive one"""
+    n = len(ballots); m = len(costs)
+    avail = [p for p in range(m) if costs[p] > 0 and any(p in b for b in ballots)]
+    outs = []
+    for k in range(cap):
+        W = _model_mes(costs, ballots, B + k * n * inc, sat)
+        c = sum(costs[p] for p in W)
+        if c > B:
+            return outs, "infeasible"
+        outs.append(W)
+        if all(p in W or c + costs[p] > B for p in avail):
+            return outs, "exhaustive"
+    return outs, "cap"
+
+
+def sample_nonmonotone(rng, tries):
+    """rejection sampling with the model: the tries of the iterated rule stop by INFEASIBILITY and the last feasible
+    outcome is strictly cheaper than an earlier one (about 1 random small election in 3000)"""
+    found = []
+    for _ in range(tries):
+        m = rng.choice([4, 5, 5, 6, 6, 7])
+        n = rng.choice([2, 3, 3, 4, 4, 5])
+        costs = [Fraction(rng.choice([1, 1, 2, 2, 3, 3, 4, 5, 6, 9])) for _ in range(m)]
+        tot = sum(costs)
+        B = Fraction(rng.randint(max(2, int(tot / 4)), max(3, int(tot * 2 / 3))))
+        ballots = [sorted(rng.sample(range(m), rng.randint(1, min(m, 4)))) for _ in range(n)]
+        inc = rng.choice([Fraction(1, 3), Fraction(1, 4), Fraction(1, 2), Fraction(1, 5), Fraction(1, 6)])
+        sat = rng.choice(["cost", "card"])
+        outs, why = _model_trace(costs, ballots, B, sat, inc)
+        if why != "infeasible" or len(outs) < 2:
+            continue
+        cs = [sum(costs[p] for p in W) for W in outs]
+        if cs[-1] < max(cs[:-1]):
+            found.append({"costs": [str(c) for c in costs], "budget": str(B), "ballots": ballots, "step": str(inc),
+                          "sat": sat, "tries": len(outs)})
+    return found
+
+
+_POOL = []
+
+
+def _pool():
+    """117 elections found by sample_nonmonotone (16 x 40000 candidates, seeds 1..15), kept in c09_pool.json because
+    sampling them afresh costs ~1.5 s each; every use re-scales, permutes and re-wraps them"""
+    import json
+    import os
+
+    if not _POOL:
+        _POOL.extend(json.load(open(os.path.join(os.path.dirname(os.path.abspath(__file__)), "c09_pool.json"))))
+    return _POOL
+
+
+def gen_nonmonotone(rng):
+    """Targeted stream for WHICH outcome the retry loops hand back when they stop by infeasibility: Equal Shares is
+    not monotone in the budget, and on these elections the last feasible outcome is strictly cheaper than an earlier
+    one, so 'the outcome at the last budget tried' differs from 'the best / largest outcome seen so far'."""
+    e = rng.choice(_pool())
+    if rng.random() < 0.04:
+        fresh = sample_nonmonotone(rng, 300)
+        if fresh:
+            e = fresh[0]
+    f = rng.choice([1, 1, 2, Fraction(1, 2), Fraction(3, 2), Fraction(1, 3), 3])
+    costs = [Fraction(c) * f for c in e["costs"]]
+    B = Fraction(e["budget"]) * f
+    inc = Fraction(e["step"]) * f
+    ballots = [list(b) for b in e["ballots"]]
+    rng.shuffle(ballots)
+    n = len(ballots)
+    if rng.random() < 0.3:                      # an extra project nobody approves and nobody can afford
+        costs.append(B + 1)
+    kindsel = rng.random()
+    case = {"costs": [pb.qs(c) for c in costs], "budget": pb.qs(B), "ballots": ballots, "multi": rng.random() < 0.25,
+            "init": [], "sat": e["sat"], "stream": "nonmonotone", "resolute": rng.random() < 0.8}
+    if kindsel < 0.65:
+        case.update({"kind": "mesiter", "step": pb.qs(inc)})
+    else:
+        # the same tries through exhaustion_by_budget_increase: budget step n*inc, stop by infeasibility
+        case.update({"kind": "increase", "rule": "mes", "stop": rng.random() < 0.25, "step": pb.qs(inc * n),
+                     "bound": rng.choice([None, pb.qs(B * 3)]), "pass_params": True})
+    return case
+
+
 def gen(rng, i, tier):
-    if i % 6 == 3:
+    if i % 7 == 3:
         return gen_mesiter_deep(rng)
-    if i % 6 == 4:
+    if i % 7 == 4:
         return gen_completion_pair(rng)
-    if i % 6 == 5:
+    if i % 7 == 5:
         return gen_pair_retry(rng)
-    kind = ["increase", "mesiter", "completion"][i % 6]
+    if i % 7 == 6:
+        return gen_nonmonotone(rng)
+    kind = ["increase", "mesiter", "completion"][i % 7]
     resolute = rng.random() < (0.6 if kind != "completion" else 0.4)
     m = rng.choice([1, 2, 3, 3, 4, 4, 5, 5, 6]) if resolute else rng.choice([1, 2, 3, 3, 4, 4, 5])
     n = rng.choice([1, 2, 2, 3, 3, 4, 5])
